@@ -261,6 +261,69 @@ def judge_seeds(ctx, mode, extra, obs, acc):
     return found
 
 
+GEN_WIRING = [(1400, 1, 100, 4), (700, 0, 50, 3), (1400, 3, 100, 1), (2000, 2, 200, 2), (1400, 1, 100, 0)]      # (-r1, -b1, -r2, -b2)
+
+
+@core.guarded(lambda r1, b1, r2, b2, pos, *a: dict(kind='generators', options=[r1, b1, r2, b2], positions=list(pos)))
+def check_generators(r1, b1, r2, b2, pos, acc):
+    """the two SequenceGenerators the PROGRAM builds from -r1/-b1 (seeding) and -r2/-b2 (refinement) produce, for a label list, exactly
+    vectorise-then-blur with THEIR OWN resolution and radius"""
+    import os
+    from mc import driver
+    from src.args import Args
+    from src.program import Program
+    d = core.scratch_dir()
+    w = dict(refs=[(1, 50000.0, [1000.0, 9000.0, 20000.0])], queries=[(2, 20000.0, [0.0, 8000.0, 19000.0])])
+    rp, qp = driver.write_world(d, w)
+    a = Args.parse(driver.cli_args(rp, qp, os.path.join(d, 'o16.xmap'), 'best', ['-r1', str(r1), '-b1', str(b1), '-r2', str(r2), '-b2', str(b2), '-md', str(max(20000, r1))]))
+    try:
+        prog = Program(a)
+    finally:
+        for fo in (a.referenceFile, a.queryFile, a.outputFile):
+            fo.close()
+    wc = prog.workflowCoordinator
+    found = []
+    case = dict(kind='generators', options=[r1, b1, r2, b2], positions=list(pos))
+    for name, gen, res, rad in (('primary', wc.primaryGenerator, r1, b1), ('secondary', wc.secondaryGenerator, r2, b2)):
+        got = [int(x) for x in gen.positionsToSequence(list(pos), 0, None)]
+        want = [int(x) for x in blur(list(vectorisePositions(list(pos), res, 0, None)), rad)]
+        if got != want:
+            found.append(('program-built-generator-differs', '%s generator for -r1 %s -b1 %s -r2 %s -b2 %s: %d bits differ (generator holds resolution=%s, '
+                          'blurRadius=%s)' % (name, r1, b1, r2, b2, sum(1 for x, y in zip(got, want) if x != y) + abs(len(got) - len(want)),
+                                              getattr(gen, 'resolution', '?'), getattr(gen, 'blurRadius', '?')), 'wiring', {'generator': name}))
+    if acc is not None:
+        acc.evals += 1
+        acc.transitions += 2
+        acc.state(('gw', r1, b1, r2, b2, len(pos)))
+        if b1 != b2:
+            acc.nontriv(('gw', r1, b1, r2, b2, tuple(pos)))
+        for f in found:
+            acc.viol(f[0], case, f[1], f[2], f[3])
+        acc.sample(case)
+    return found
+
+
+class GeneratorWiring(core.Layer):
+    name = 'wiring:-r1,-b1,-r2,-b2'
+    optional = False
+
+    def __init__(self):
+        self.lists = [[0, 5000, 5400, 12000], [300, 301, 9000], [0, 1399, 1400, 2800, 30000], [100]]
+        self.bounds = dict(option_tuples=[list(x) for x in GEN_WIRING], label_lists=len(self.lists))
+        self.rule = '%d (-r1, -b1, -r2, -b2) tuples x %d label lists through the generators built by Program' % (len(GEN_WIRING), len(self.lists))
+
+    def nblocks(self):
+        return len(GEN_WIRING)
+
+    def run_block(self, b, acc):
+        for pos in self.lists:
+            acc.seq += 1
+            check_generators(*GEN_WIRING[b], pos, acc)
+
+    def replay(self, case):
+        return check_generators(*case['options'], case['positions'], None)
+
+
 def array_layer(tier, seed):
     """a reference with 24 tandem copies of a 25.2 kb unit: one correlation has more than ten peaks that are at least minPeakDistance apart;
     run with peaksCount 12 and 14 (above the fixed cap of 10 that the refinement step uses for ITS peaks)"""
@@ -390,5 +453,5 @@ class Space(core.Layer):
 
 def layers(tier, seed):
     if tier == 'quick':
-        return [Space('n<=4,len<=8', 4, 8), Generator('seq2:n<=2', 2), seed_layer(tier, seed), array_layer(tier, seed)]
-    return [Space('n<=4,len<=8', 4, 8), Generator('seq2:n<=3', 3), seed_layer(tier, seed), array_layer(tier, seed), Space('n<=6,len<=12', 6, 12, optional=True)]
+        return [Space('n<=4,len<=8', 4, 8), Generator('seq2:n<=2', 2), seed_layer(tier, seed), array_layer(tier, seed), GeneratorWiring()]
+    return [Space('n<=4,len<=8', 4, 8), Generator('seq2:n<=3', 3), seed_layer(tier, seed), array_layer(tier, seed), GeneratorWiring(), Space('n<=6,len<=12', 6, 12, optional=True)]
